@@ -103,6 +103,42 @@ int main() {
         std::cout << "legacy " << hist.getMin() << " " << hist.getMax() << " " << hist.getInterval();
         for (double p : hist.getPdf()) std::cout << " " << p;
         std::cout << std::endl;
+      } else if (cmd == "legacym") {
+        // legacym <n> <normalize> <k> <stale> <cnt> v...   the selection holds, besides the data array, k EMPTY arrays in
+        // front of and behind it; an empty array was filled with <stale> before and then clear()ed (capacity kept)
+        Histogram::options_t op;
+        int norm, k;
+        long cnt;
+        double stale;
+        in >> op.n_ >> norm >> k >> stale >> cnt;
+        op.auto_interval_ = true;
+        op.normalize_ = norm;
+        DataCollection<double> dc;
+        DataCollection<double>::selection sel;
+        for (int j = 0; j < k; ++j) {
+          DataCollection<double>::array *e = dc.CreateArray("e" + std::to_string(j));
+          for (int q = 0; q < 4; ++q) e->push_back(stale);
+          e->clear();
+          sel.push_back(e);
+        }
+        DataCollection<double>::array *a = dc.CreateArray("a");
+        for (long i = 0; i < cnt; ++i) {
+          double v;
+          in >> v;
+          a->push_back(v);
+        }
+        sel.push_back(a);
+        for (int j = 0; j < k; ++j) {
+          DataCollection<double>::array *e = dc.CreateArray("f" + std::to_string(j));
+          for (int q = 0; q < 4; ++q) e->push_back(stale);
+          e->clear();
+          sel.push_back(e);
+        }
+        Histogram hist(op);
+        hist.ProcessData(&sel);
+        std::cout << "legacy " << hist.getMin() << " " << hist.getMax() << " " << hist.getInterval();
+        for (double p : hist.getPdf()) std::cout << " " << p;
+        std::cout << std::endl;
       } else if (cmd == "legacyd") {
         // legacyd <cnt> v...   a DEFAULT-constructed legacy Histogram (options_t defaults) processes the data
         long cnt;
